@@ -101,25 +101,60 @@ def tester_states_ref(d, name, seed):
     raise ValueError(name)
 
 
-def _herm_coords(Mx):
-    """real coordinates of a Hermitian matrix in an orthonormal Hermitian basis built here"""
-    d = Mx.shape[0]
-    return np.array([np.trace(b.conj().T @ Mx).real for b in R.hermitian_basis_ref(d)])
+def _mub3():
+    """the four mutually unbiased bases of dimension 3 (lists of rank-one projectors)"""
+    w = np.exp(2j * math.pi / 3)
+    bases = [[np.eye(3, dtype=np.complex128)[:, i] for i in range(3)]]
+    for k in range(3):
+        bases.append([np.array([w ** (k * j * j + mm * j) for j in range(3)]) / math.sqrt(3) for mm in range(3)])
+    return [[np.outer(v, v.conj()) for v in b] for b in bases]
+
+
+def _ic9_projectors():
+    out = []
+    for i in range(3):
+        e = np.zeros(3, dtype=np.complex128)
+        e[i] = 1
+        out.append(np.outer(e, e.conj()))
+    for i in range(3):
+        for j in range(i + 1, 3):
+            for ph in (1, 1j):
+                v = np.zeros(3, dtype=np.complex128)
+                v[i], v[j] = 1 / math.sqrt(2), ph / math.sqrt(2)
+                out.append(np.outer(v, v.conj()))
+    return out
+
+
+FIXED_POVM_SETS = {
+    # qutrit
+    "mub3": (3, [3] * 4), "mub4": (3, [4] * 4), "proj9": (3, [2] * 9),
+    # two qubits
+    "pauli9": (4, [4] * 9), "tetra16": (4, [16]),
+}
+
+
+def _fixed_povm_set(name):
+    if name == "mub3":
+        return _mub3()
+    if name == "mub4":                                  # the last projector split into two unequal parts: 4 outcomes
+        return [[b[0], b[1], 0.25 * b[2], 0.75 * b[2]] for b in _mub3()]
+    if name == "proj9":
+        return [[P, np.eye(3) - P] for P in _ic9_projectors()]
+    one = [_q1_povm(k) for k in ("px", "py", "uz")]
+    if name == "pauli9":
+        return [[np.kron(E, Fq) for E in a for Fq in b] for a in one for b in one]
+    tet = _q1_povm("tetra")
+    if name == "tetra16":
+        return [[np.kron(E, Fq) for E in tet for Fq in tet]]
+    raise ValueError(name)
 
 
 def tester_povms_ref(d, name, seed):
-    """name: a Q1 set name (fixed frames, generic orientation), or 'g<m>x<K>' = K generic m-outcome POVMs (the first salt
-    offset for which the stacked elements are well conditioned: a deterministic function of the seed)"""
+    """fixed measurement frames conjugated by one generic unitary (seed-dependent orientation, seed-independent conditioning)"""
     if d == 2 and name in Q1_POVM_SETS:
         return [_rot(_q1_povm(k), 2, seed) for k in Q1_POVM_SETS[name]]
-    if name.startswith("g"):
-        m, K = (int(x) for x in name[1:].split("x"))
-        for t in range(40):
-            povms = [A.povm_generic(d, m, seed, salt=10 * k + m + 7 * t) for k in range(K)]
-            stack = np.array([_herm_coords(E) for P in povms for E in P])
-            if np.linalg.matrix_rank(stack) == d * d and np.linalg.cond(stack) <= 40:
-                return povms
-        raise AssertionError("harness: no well-conditioned generic tester set %s for seed %r" % (name, seed))
+    if name in FIXED_POVM_SETS and FIXED_POVM_SETS[name][0] == d:
+        return [_rot(P, d, seed) for P in _fixed_povm_set(name)]
     raise ValueError(name)
 
 
